@@ -17,6 +17,7 @@ import (
 	"os"
 	"path/filepath"
 	"sync"
+	"sync/atomic"
 	"testing"
 	"testing/synctest"
 	"time"
@@ -52,6 +53,8 @@ type vfC05Caller struct {
 	Timeout     time.Duration // 0 = none (DialPeer's own timeout applies)
 	ForceDirect bool
 	SimConnect  bool // hole-punch style caller (simultaneous connect: no ranking delay)
+	HookK       int    // >0: at the HookK-th ctx.Value look-up the swarm makes for this call, HookEv happens synchronously
+	HookEv      string // cancel (the caller's own context) | closeany (an established connection is closed)
 }
 
 type vfC05CloseEv struct {
@@ -273,6 +276,14 @@ func vfC05Gen(seed int64, idx int) *vfC05Scenario {
 		if rnd.Intn(4) == 0 {
 			c.Start += ms(20000 + rnd.Intn(3000)) // a later generation (after the dial timeout of the first)
 		}
+		if idx%4 == 3 && rnd.Intn(2) == 0 {
+			// an event at one of the swarm's own context look-ups for this call (between two of its steps)
+			c.HookK = 1 + rnd.Intn(6)
+			c.HookEv = []string{"cancel", "closeany"}[rnd.Intn(2)]
+			if c.HookEv == "cancel" {
+				c.Timeout, c.Cancel = 0, c.Start+ms(100000)
+			}
+		}
 		sc.Callers = append(sc.Callers, c)
 	}
 	if rnd.Intn(3) == 0 {
@@ -374,6 +385,27 @@ func vfC05Execute(t *testing.T, sc *vfC05Scenario, tr *vfh.Trace) {
 			}
 			if c.SimConnect {
 				ctx = network.WithSimultaneousConnect(ctx, c.Name != "c1", "verif")
+			}
+			if c.HookK > 0 {
+				ctx = &vfC12HookCtx{Context: ctx, n: new(atomic.Int32), k: int32(c.HookK), fire: func() {
+					tr.Emit("hook", "c", c.Name, "k", c.HookK, "hev", c.HookEv, "t", r.now())
+					switch c.HookEv {
+					case "cancel":
+						tr.Emit("ctx_cancel", "c", c.Name, "t", r.now())
+						cancel()
+					case "closeany":
+						for _, cn := range sw.ConnsToPeer(remote) {
+							stub, _ := cn.(*Conn).conn.(*vfStubConn)
+							r.mu.Lock()
+							id := r.connID[stub]
+							r.mu.Unlock()
+							tr.Emit("conn_close", "conn", id, "t", r.now())
+							cn.Close()
+							tr.Emit("conn_closed", "conn", id, "t", r.now())
+							break
+						}
+					}
+				}}
 			}
 			dl := int64(0)
 			if c.Timeout > 0 {
